@@ -1444,7 +1444,10 @@ func (e *UnaryExpression) MarshalJSON() ([]byte, error) {
 	})
 }
 
-func (*UnaryExpression) precedence() expressionPrecedence {
+func (e *UnaryExpression) precedence() expressionPrecedence {
+	if e.Operation == OperationMove {
+		return expressionPrecedenceMove
+	}
 	return expressionPrecedenceUnaryPrefix
 }
 
@@ -2039,10 +2042,12 @@ const destroyExpressionKeywordDoc = prettier.Text("destroy ")
 func (e *DestroyExpression) Doc(ctx PrettyContext) prettier.Doc {
 	return ctx.Wrap(e, prettier.Concat{
 		destroyExpressionKeywordDoc,
+		// NOTE: the operand is parsed with the lowest binding power.
+		// Parentheses are only kept around binary and conditional expressions
 		parenthesizedExpressionDoc(
 			ctx,
 			e.Expression,
-			e.precedence(),
+			expressionPrecedenceMove,
 		),
 	})
 }
